@@ -42,6 +42,7 @@ type Prog struct {
 	rpoCache      map[*ssa.Function]map[*ssa.BasicBlock]int
 	inPhi         map[*ssa.Phi]bool
 	inLinPhi      map[*ssa.Phi]bool
+	localFlag     map[*ssa.Alloc]bool
 	linFrame      *Frame
 	linArgs       map[*ssa.Parameter]Lin
 }
@@ -123,6 +124,15 @@ func (p *Prog) AllFuncs() []*ssa.Function {
 	}
 	sort.Slice(ts, func(i, j int) bool { return OrdinalName(ts[i]) < OrdinalName(ts[j]) })
 	return append(out, ts...)
+}
+
+// Host is the function a (possibly transparent) function is analysed as part of: fn itself unless it is transparent.
+func Host(fn *ssa.Function) *ssa.Function {
+	fn = Canon(fn)
+	for fn != nil && transparentSite[fn] != nil {
+		fn = Canon(transparentSite[fn].Parent())
+	}
+	return fn
 }
 
 // IsTransparent reports whether fn is analysed as part of its enclosing function.
@@ -599,7 +609,7 @@ func (p *Prog) index() {
 	p.concCaptured = map[*ssa.Alloc]bool{}
 	p.sccCache = map[*ssa.Function]map[*ssa.BasicBlock]int{}
 	// resolve an address to its alloc through free variables (closures write parents' cells)
-	for _, fn := range p.Funcs {
+	for _, fn := range p.AllFuncs() {
 		for _, b := range fn.Blocks {
 			for _, in := range b.Instrs {
 				st, ok := in.(*ssa.Store)
